@@ -635,7 +635,7 @@ fn flip(rng: &mut ChaCha8Rng, v: &mut Vec<u8>) -> bool {
 /// Honest answer for an unfunded address: empty value + genuine non-existence proof chain.
 const HONEST_ABSENT: &str = "absent/honest-nonexistence-proof";
 
-const FAMILIES: [&str; 41] = [
+const FAMILIES: [&str; 42] = [
     "empty-value/funded-no-proof",
     "store/valid-proof-in-other-store",
     "store/valid-proof-in-other-store-op-labelled-bank",
@@ -675,6 +675,7 @@ const FAMILIES: [&str; 41] = [
     "store/other-store-labelled-bank",
     "root/other-height",
     "root/other-world-value-kept",
+    "root/forged-chain-plus-trailing-op",
     "empty-value/funded-with-existence-proof",
     "empty-value/funded-with-foreign-nonexistence-proof",
 ];
@@ -924,6 +925,29 @@ fn tamper(rng: &mut ChaCha8Rng, family: &str, w: &World, si: usize, addr: &[u8; 
             stores[st.bank_index].1 = tree.hash().to_vec();
             ops[0].data = encode_exist(iavl_exist(&tree, i));
             ops[1].data = encode_exist(simple_exist(&stores, st.bank_index));
+            r.value = forged[i].1.clone();
+        }
+        "root/forged-chain-plus-trailing-op" => {
+            // a self-consistent forged chain (key -> other value -> forged bank root -> forged app hash)
+            // followed by ONE extra existence op whose value is that forged app hash: a verifier that
+            // takes the anchor from "the next op" instead of the header would accept it
+            let mut forged: Vec<(Vec<u8>, Vec<u8>)> = st.kv.clone();
+            let i = st.index_of(&key)?;
+            forged[i].1 = other_value(rng, &honest.value);
+            let tree = build_tree(rng, &forged, 7);
+            let mut stores = st.stores.clone();
+            stores[st.bank_index].1 = tree.hash().to_vec();
+            let top = simple_exist(&stores, st.bank_index);
+            let forged_app_hash = computed_root(&top)?;
+            ops[0].data = encode_exist(iavl_exist(&tree, i));
+            ops[1].data = encode_exist(top.clone());
+            let mut extra = ops[1].clone();
+            let mut e = top;
+            e.key = b"anchor".to_vec();
+            e.value = forged_app_hash;
+            extra.key = b"anchor".to_vec();
+            extra.data = encode_exist(e);
+            ops.push(extra);
             r.value = forged[i].1.clone();
         }
         "empty-value/funded-no-proof" => {
